@@ -454,7 +454,8 @@ esl_randomness_Dump(FILE *fp, ESL_RANDOMNESS *r)
 
       fputs      ("type    = mersenne twister\n", fp );
       fprintf(fp, "mti     = %d (0..623)\n", r->mti);
-      fprintf(fp, "mt[mti] = %" PRIu32 "\n", r->mt[r->mti]);
+      if (r->mti < 624) fprintf(fp, "mt[mti] = %" PRIu32 "\n", r->mt[r->mti]);   // mti == 624: table used up, next draw refills it; mt[624] does not exist
+      else              fprintf(fp, "mt[mti] = (table exhausted)\n");
 
       fprintf(fp, "%6d: ", 0);
       for (i = 0, j=0; i < 624; i++)
